@@ -104,6 +104,12 @@ Definition current : variant :=
      v_view_key_bug := true; v_sort_raw := true; v_default_raw := true; v_create_any := true; v_formal_by_term := true;
      v_assign_raw := true; v_assign_seekp := false; v_assign_format := false; v_echo_raw := true; v_core_raw := true |}.
 
+(* the table after proposed_fixes/C17_series/01_protect_name: the words both lexers reserve and the table lacked *)
+Definition series_tokenNames : list string :=
+  pinned_tokenNames ++ ["_"; "!"; "BINARY"; "DECIMAL"; "HEXADECIMAL"; "NUMERAL"; "STRING"; "match"; "check-sat-assuming";
+                        "declare-datatype"; "declare-datatypes"; "define-fun-rec"; "define-funs-rec"; "get-unsat-assumptions";
+                        "reset"; "reset-assertions"].
+
 (* words that the two lexers reserve and the table lacks *)
 Definition missing_reserved : list string :=
   filter (fun w => negb (mem_str w gen_tokenNames)) (std_reserved ++ gen_lexer_reserved).
